@@ -211,6 +211,22 @@ def lay311(ctx: Ctx) -> None:
                 ctx.R.fail("LAY-311", mod, st, f"CPython {v}: {name} is {got} here but {val} in enum _frameowner")
             else:
                 ctx.R.ok("LAY-311", f"{v}: {name} == {val}")
+    # where the value stack starts: after co_nlocalsplus slots.  CPython lays localsplus out as the distinct names of
+    # (co_varnames + co_cellvars) followed by co_freevars (3.11: closed-over arguments are in both lists; 3.12 / PEP 709:
+    # so are comprehension variables captured by an inner scope)
+    fn = mod.fn("inspect_frame")
+    ss = [a for a in ast.walk(fn) if isinstance(a, ast.Assign) and norm(a.targets[0]) == "stack_start_offset"]
+    ref = "localsplus_offset + wordsize * (len(set(co.co_varnames + co.co_cellvars)) + len(co.co_freevars))"
+    if len(ss) == 1 and norm(ss[0].value) == ref:
+        ctx.R.ok("LAY-311", "value stack starts after len(set(co_varnames + co_cellvars)) + len(co_freevars) slots (= co_nlocalsplus)")
+    else:
+        ctx.R.undecided("LAY-311", "the number of localsplus slots before the value stack is computed by an expression other than the reference one "
+                        "(len(set(co_varnames + co_cellvars)) + len(co_freevars)); its agreement with co_nlocalsplus on 3.11 and 3.12 cannot be decided statically")
+    lo = [a for a in ast.walk(fn) if isinstance(a, ast.Assign) and norm(a.targets[0]) == "localsplus_offset"]
+    if len(lo) == 1 and norm(lo[0].value) == "ctypes.sizeof(InterpreterFrame)":
+        ctx.R.ok("LAY-311", "localsplus starts at sizeof(InterpreterFrame)")
+    elif lo:
+        ctx.R.fail("LAY-311", mod, lo[0], "localsplus starts right after the fixed part of _PyInterpreterFrame: ctypes.sizeof(InterpreterFrame)", construct=f"localsplus_offset = {norm(lo[0].value)[:60]}")
     for n in sorted(set(notes)):
         ctx.R.note(n)
     ctx.R.expect_min("LAY-311", 2 * (11 + 1 + 6 + 3))
